@@ -39,7 +39,7 @@ Example C03_loop_variables_lexically_scoped_nonvacuous :
   = Blocks.ROk (Blocks.mkP 4 BlocksFacts.w_ctx
       [Blocks.EvRow [] [97; 102; 116; 101; 114; 32; 67; 88; 86; 65; 76]%N; Blocks.EvInst 3; Blocks.EvEnd [49]%N;
        Blocks.EvInst 2; Blocks.EvRow [] [49; 98]%N; Blocks.EvInst 1; Blocks.EvEnter Blocks.BFor false;
-       Blocks.EvInst 2; Blocks.EvRow [] [48; 97]%N; Blocks.EvInst 1; Blocks.EvEnter Blocks.BFor false; Blocks.EvInst 0]).
+       Blocks.EvInst 2; Blocks.EvRow [] [48; 97]%N; Blocks.EvInst 1; Blocks.EvEnter Blocks.BFor false; Blocks.EvPush; Blocks.EvInst 0]).
 Proof. exact BlocksFacts.ctx_preserved_nonvacuous. Qed.
 Print Assumptions C03_loop_variables_lexically_scoped_nonvacuous.
 
@@ -77,7 +77,7 @@ Theorem C03_empty_loop_pass_through : forall pol rows f s bt s1 row x rest,
   Blocks.i_kind row = Blocks.KBeginFor -> Blocks.i_inc row = true -> Blocks.i_iter row = [] ->
   Blocks.i_vars row = x :: rest -> x <> [] ->
   Blocks.parse_block pol ScopeRestore EmptySkip true rows (S f) s bt false
-  = match Blocks.parse_block pol ScopeRestore EmptySkip true rows f (Blocks.log s1 (Blocks.EvEnter Blocks.BFor true)) Blocks.BFor true with
+  = match Blocks.parse_block pol ScopeRestore EmptySkip true rows f (Blocks.log (Blocks.log s1 Blocks.EvPush) (Blocks.EvEnter Blocks.BFor true)) Blocks.BFor true with
     | Blocks.ROk s2 => Blocks.parse_block pol ScopeRestore EmptySkip true rows f (Blocks.log s2 (Blocks.EvEnd (Blocks.i_id row))) bt false
     | Blocks.RErr e => Blocks.RErr e
     end.
@@ -91,7 +91,7 @@ Example C03_empty_loop_pass_through_nonvacuous :
   /\ Blocks.parse_block Strict ScopeRestore EmptySkip true BlocksFacts.e_rows 50 (Blocks.mkP 0 BlocksFacts.e_ctx []) Blocks.BRoot false
      = Blocks.ROk (Blocks.mkP 8 BlocksFacts.e_ctx
          [Blocks.EvRow [] [98; 121; 101]%N; Blocks.EvInst 7; Blocks.EvEnd [50]%N; Blocks.EvEnter Blocks.BBlock true;
-          Blocks.EvEnter Blocks.BFor true; Blocks.EvInst 1; Blocks.EvRow [] [104; 105]%N; Blocks.EvInst 0])
+          Blocks.EvEnter Blocks.BFor true; Blocks.EvPush; Blocks.EvInst 1; Blocks.EvRow [] [104; 105]%N; Blocks.EvInst 0])
   /\ Blocks.parse_block Strict ScopePop EmptyFallThrough false BlocksFacts.e_rows 50 (Blocks.mkP 0 BlocksFacts.e_ctx []) Blocks.BRoot false
      = Blocks.RErr Blocks.KeyErr.
 Proof. exact BlocksFacts.empty_loop_pass_through_nonvacuous. Qed.
